@@ -113,6 +113,9 @@ func Lib() *ty.Env {
 	op := add("OptP", "", ty.St(f("V", ty.P(b("int"))), f("Ok", b("bool"))), false) // 56
 	e.Decls[op].Src = "type OptP = Opt[*int]"
 	add("GH", "", ty.St(f("A", ty.N(55)), f("B", ty.N(56)), f("C", ty.Sl(ty.N(56))), f("D", ty.N(55))), false) // 57
+	// a slice of arrays of slices: what lies in the spare capacity of the outer slice are ARRAYS, which are copied into in place
+	add("Span", "", ty.Ar(2, ty.Sl(b("int"))), false)                       // 58
+	add("SPN", "", ty.St(f("S", ty.Sl(ty.N(58))), f("N", b("int"))), false) // 59
 	return e
 }
 
@@ -253,7 +256,7 @@ func NewCorpusEnv(env *ty.Env, rng *rand.Rand, thorough bool, n2, extra int) *Co
 		ty.M(ty.B("bool"), ty.Sl(ty.B("string"))),
 		ty.P(ty.N(47)), ty.Sl(ty.N(46)), ty.P(ty.N(50)),
 		// arrays of arrays whose elements are not assignable (nested loops over one array)
-		ty.P(ty.N(51)), ty.P(ty.N(53)), ty.P(ty.N(54)), ty.P(ty.N(57)),
+		ty.P(ty.N(51)), ty.P(ty.N(53)), ty.P(ty.N(54)), ty.P(ty.N(57)), ty.P(ty.N(59)),
 	} {
 		add(t)
 	}
